@@ -587,6 +587,10 @@ def playback(spec, res, work):
                 # Kani 0.68 cannot generate playback tests for harnesses that use #[kani::stub]; its own driver
                 # (second pipeline: goto-instrument passes, result post-processing) confirms the same failing check
                 return {"reproduced": "solver-only", "why": "native playback unavailable for stubbed harnesses (Kani limitation); the failure was confirmed by cargo kani's own run on the same check", "log": logp, "test_src": "", "confirmed_checks": same}
+            if "CBMC failed" in out or "run out of memory" in out or "CBMC timed out" in out:
+                # cargo kani's playback run (no formula slicing) exhausted memory/time: no native test can be had for
+                # this harness; the verdict of the direct CBMC run stands (unwinding assertions and witnesses were fine)
+                return {"reproduced": "solver-only", "why": "cargo kani's concrete-playback run of this harness ran out of memory/time, so no native test exists; reported on the direct CBMC verdict", "log": logp, "test_src": ""}
             return {"reproduced": False, "why": "kani produced no concrete playback test (its own verdict: %s)" % ("FAILED" if kani_failed else "not failed"), "log": logp, "test_src": ""}
         reproduced = []
         outputs = []
